@@ -564,14 +564,14 @@ def plan(ck, kind, tol, collide=False):
             n = {"memShared": 8000, "hdf5": 4000}[kind]
         return [(False, n), (True, n)]
     if collide:
-        return [(False, None if kind == "memShared" else 300)]
+        return [(False, None if kind == "memShared" else 400)]
     if kind == "simple":
         return [(False, None), (True, None)]
     if kind == "memLocal":
         return [(False, None), (True, None)]
     if kind == "memShared":
-        return [(False, 700)]
-    return [(False, 450)]
+        return [(False, 1200)]
+    return [(False, 700)]
 
 
 if __name__ == "__main__":
